@@ -1453,6 +1453,13 @@ def run_conc(prop, tier, seed, jobs, write_evidence, write_replay, load_known):
                 print("KNOWN-FINDING: property=%s %s" % (prop, k["what"]))
             continue
         report(l, msg)
+    dflt = None
+    if prop == "C08":
+        # last clause of C08: the default scheduler runs the task synchronously in post (sequential harness + model A)
+        dflt = default_scheduler_supplement()
+        for case_text, what, suffix in dflt["violations"]:
+            path = write_replay(prop, {"case": case_text, "what": what})
+            violations.append((path, suffix))
     if rejects and not violations:
         l, c = rejects[0]
         report(l, "correspondence %s no longer checks: %s" % (cfg["corr"], c), " no-failing-input-found")
@@ -1467,11 +1474,52 @@ def run_conc(prop, tier, seed, jobs, write_evidence, write_replay, load_known):
                    extra={"scenarios": len(scen), "schedules_explored": total_schedules, "distinct_executions": len(execs),
                           "traces_validated_against_impl": len(execs) - len(rejects), "cosimulated_steps": steps,
                           "cosimulation_rejects": len(rejects), "oracle_failures": len(oracle_fail), "abnormal_executions": len(bad_status),
+                          **({"default_scheduler_cases": dflt["cases"], "default_scheduler_rule": dflt["rule"]} if dflt else {}),
                           "rule_conc": "each scenario is executed under `iterations` seeded shuttle schedules (random and PCT); distinct = distinct "
                                        "label trace; every distinct trace is replayed through the Lean LTS (`rxmodel cosim`) and judged by the oracle"})
     print("%s %s: %d scenarios, %d schedules, %d distinct executions, %d co-simulation rejects, %d oracle failures, %d abnormal, %d violations, %.1fs" %
           (prop, tier, len(scen), total_schedules, len(execs), len(rejects), len(oracle_fail), len(bad_status), len(violations), time.time() - t0))
     return 1 if violations else 0
+
+
+def default_scheduler_supplement():
+    """C08, last clause ("the default scheduler runs the task synchronously in post"), decided on the SEQUENTIAL harness:
+    `(dpost n)` posts n tasks to a default scheduler; each task records whether it runs on the posting thread, and the
+    poster records the return of `post`.  Oracle: for every i the record `x(100+i):1` (ran, on the posting thread) is
+    immediately followed by `x(100+i):2` (post returned), in posting order.  Correspondence: model A (`dPost task = task`,
+    Machine/Lib.lean) gives the same line, and so do the scheduler-based sources / operators over the default scheduler."""
+    out = {"violations": [], "cases": 0, "rule": "dpost 0..4: x(100+i):1 directly followed by x(100+i):2, in order; the line equals model A's; "
+           "interval / timer / observe_on / subscribe_on over the default scheduler deliver inside subscribe exactly what model A delivers"}
+    try:
+        run.build_harness("seq")
+    except run.BuildError as e:
+        out["violations"].append(("(build)", "correspondence build (sequential harness): " + e.what, " no-failing-input-found"))
+        return out
+    cases = ["(case C08-d%d (dpost %d))" % (n, n) for n in range(5)]
+    pipes = ["(timer_d)", "(take 3 (interval_d))", "(observe_on_d (from_iter 1 2 3))", "(subscribe_on_d (from_iter 1 2 3))", "(observe_on_d (error 5))",
+             "(take 2 (observe_on_d (subscribe_on_d (interval_d))))", "(subscribe_on_d (observe_on_d (cold 0 (n 1) (e 6))))", "(first (subscribe_on_d (repeat 4)))",
+             "(observe_on_d (merge (timer_d) (take 2 (interval_d))))", "(concat (take 2 (interval_d)) (timer_d))"]
+    cases += ["(case C08-dp%d (dpost 1) (sub %s (react)) (dpost 2))" % (i, p) for i, p in enumerate(pipes)]
+    impl = run.run_impl(cases, 1)
+    model = run.run_model(cases, 1)
+    out["cases"] = len(cases)
+    for c, a, b in zip(cases, impl, model):
+        recs = re.findall(r"\bx(\d+):(\d)", a)
+        n_posts = sum(int(x) for x in re.findall(r"\(dpost (\d+)\)", c))
+        bad = None
+        if len(recs) != 2 * n_posts:
+            bad = "a task posted to the default scheduler did not run exactly once inside post"
+        for j in range(0, len(recs) - 1, 2):
+            if not (recs[j][0] == recs[j + 1][0] and recs[j][1] == "1" and recs[j + 1][1] == "2"):
+                bad = "the default scheduler did not run the task synchronously on the posting thread before post returned"
+        if "st=ok" not in a.split(" | ")[-1]:
+            bad = "the case did not finish: " + a.split(" | ")[-1][-40:]
+        if bad:
+            out["violations"].append((c, bad + ": " + a, ""))
+        elif a != b:
+            out["violations"].append((c, "correspondence Machine(model A, default scheduler) vs implementation no longer checks: impl `%s` model `%s`" % (a, b),
+                                      " no-failing-input-found"))
+    return out
 
 
 def scen_reentrant_threads(rng, n):
